@@ -216,7 +216,11 @@ func VerifC07Grammar() {
 	name := names[vrtChoice("name", 2)]
 	op := vrtString("op", 2, ":-+?")
 	inner := vrtString("inner", vrtParam("IL", 2), "${}:-A_x")
-	post := vrtString("post", vrtParam("PL", 2), "${}A x")
+	postAlpha := "${}A x"
+	if vrtParam("POSTALPHA", 0) == 1 {
+		postAlpha = "$A}" // trailing $NAME / $$ followed by a literal brace
+	}
+	post := vrtString("post", vrtParam("PL", 2), postAlpha)
 	tmpl := pre + "${" + name + op + inner + "}" + post
 	c07Check(tmpl)
 }
